@@ -31,6 +31,32 @@ def gen(rng, tier):
             body += ["newopts 1 " + enc(b"PARSING_DIRS=" + d1 + b":" + d2), "readconfig 1 - - %s %s x3d x23" % (enc(name), enc(sfx)), "dump 1"]
         body += ["cb reject", "readdirs 2 " + args, "dump 2", "history " + args, "cb none", "history " + args, "histmerge " + args]
         out.append(Scenario(cmds + body, [False] * npre + [True] * len(body), tags=("nulldir" if not (d1 and d2) else "two",)))
+    # a NULL or empty directory stands for the layer "" (files directly below "/"); the option string spells it as an
+    # empty component of PARSING_DIRS.  The configuration name carries a path ("@" = the scratch root), so that the
+    # layer "" has something to find: all entry points must agree here as well
+    for _ in range(n // 6):
+        vname = b"L/" + rng.choice([b"foo", b"bar"]); sfx = rng.choice([b"conf", b".conf"])
+        empty = rng.choice([None, b""])
+        first = rng.random() < 0.5
+        layers = [b"", b"/etc"] if first else [b"/usr/etc", b""]
+        cmds = [c for c in trees.populate(rng, layers, vname, sfx, None) if c != trees.fsdir(b"")]
+        # below the other layer the name's path comes a second time ("@" = the scratch root, absent in the model's tree)
+        other = b"/etc" if first else b"/usr/etc"
+        def at(c):
+            t = c.split(); pth = vlib.dec(t[1])
+            if pth.startswith(other + b"/L/"): t[1] = enc(other + b"/@/L/" + pth[len(other) + 3:])
+            if t[0] == "fslink":
+                tg = vlib.dec(t[2])
+                if tg.startswith(other + b"/L/"): t[2] = enc(other + b"/@/L/" + tg[len(other) + 3:])
+            return " ".join(t)
+        cmds = [at(c) for c in cmds]
+        npre = len(cmds)
+        d1, d2 = (empty, b"/etc") if first else (b"/usr/etc", empty)
+        args = "%s %s %s %s x3d x23" % (enc(d1), enc(d2), enc(b"@/" + vname), enc(sfx))
+        pd = (b":/etc" if first else b"/usr/etc:")
+        body = ["readdirs 0 " + args, "dump 0", "newopts 1 " + enc(b"PARSING_DIRS=" + pd), "readconfig 1 - - %s %s x3d x23" % (enc(b"@/" + vname), enc(sfx)), "dump 1",
+                "cb reject", "readdirs 2 " + args, "dump 2", "history " + args, "cb none", "history " + args, "histmerge " + args]
+        out.append(Scenario(cmds + body, [False] * npre + [True] * len(body), tags=("emptydir",)))
     return out
 
 def oracle(s, ilines):
